@@ -159,6 +159,8 @@ class AnGen:
             needs_num = any(k in 'PF' for k in shape.split('-'))
             if needs_num and okind not in ('id2',):
                 okind = 'id2'                        # an offset needs ONE numeric order component
+            if okind == 'meas' and FAMILIES[fam][0][1] == 'String':
+                okind = 'id2'                        # the engine documents (1-1-19-13) that RANGE windows do not order by String
         env, sizes, null_rate = self.dataset(fam, id2_type, distinct_meas=(okind == 'meas'))
         meas = env['DS_1']['meas']
         d = lambda: r.choice(['asc', 'desc', ''])    # noqa: E731
@@ -242,6 +244,30 @@ class AnGen:
              'nrows': len(env['DS_1']['rows']), 'null_rate': null_rate, 'arg': 'dataset', 'id2_type': 'Integer', 'ops': [fn],
              'flat': True, 'depth': 1, 'ids': env['DS_1']['ids'], 'meas': env['DS_1']['meas']}
         return c
+
+
+    def ratio_zero(self):
+        """ratio_to_report over a dataset where some partition sums to zero: the VTL runtime error 2-1-3-1."""
+        r = self.r
+        fam = r.choice(['num1', 'int1'])
+        t = FAMILIES[fam][0][1]
+        env, sizes, null_rate = self.dataset(fam, 'Integer')
+        vals = r.choice([[5, -5], [0], [0, 0, None], [3, -1, -2, None]])
+        rows = [row for row in env['DS_1']['rows'] if row[0] != 99]
+        for j, v in enumerate(vals):
+            rows.append((99, j, None if v is None else (Fraction(v) if t == 'Number' else v)))
+        r.shuffle(rows)
+        env['DS_1']['rows'] = rows
+        level = r.choice(['each', 'calc'])
+        if level == 'each':
+            vtl, target = 'DS_r <- ratio_to_report(DS_1 over (partition by Id_1));', 'each'
+        else:
+            vtl, target = 'DS_r <- DS_1[calc Me_9 := ratio_to_report(Me_1 over (partition by Id_1))];', '(calc "Me_9" (col "Me_1"))'
+        return {'stream': 'ratio-zero-sum', 'env': env, 'vtl': vtl,
+                'sx': '(analytic (spec ratio (part "Id_1") (order) _ %s) (ds DS_1))' % target, 'fn': 'ratio_to_report', 'level': level,
+                'family': fam, 'order_kind': 'none', 'frame_shape': 'none', 'offsets': [], 'part_sizes': sizes + [len(vals)],
+                'nrows': len(rows), 'null_rate': null_rate, 'arg': 'dataset' if level == 'each' else 'component', 'id2_type': 'Integer',
+                'ops': ['ratio_to_report'], 'flat': True, 'depth': 1, 'ids': env['DS_1']['ids'], 'meas': env['DS_1']['meas']}
 
 
 def request(case):
